@@ -169,22 +169,41 @@ def coq_audit(files):
     return bad
 
 
-def coq_deps(pid):
-    """Transitive MV.* dependencies of Props/<pid>.v (as relative file names)."""
-    seen, todo = [], [f"Props/{pid}.v"]
+_REQ_RE = re.compile(r"(?:From\s+MV\s+)?Require\s+(?:Import\s+|Export\s+)?(.*?)\.(?=\s|$)", re.S)
+
+
+def _mv_requires(txt):
+    """Relative .v files named by `From MV Require [Import|Export] A.B C.D.` / `Require Import MV.A.B.` sentences."""
+    # strip comments
+    prev = None
+    while prev != txt:
+        prev = txt
+        txt = re.sub(r"\(\*(?:(?!\(\*|\*\)).)*?\*\)", " ", txt, flags=re.S)
+    out = []
+    for m in re.finditer(r"(From\s+MV\s+)?Require\s+(?:Import\s+|Export\s+)?((?:[A-Za-z_][A-Za-z0-9_']*(?:\.[A-Za-z_][A-Za-z0-9_']*)*\s*)+)\.(?=\s|$)", txt):
+        frm, names = m.group(1), m.group(2).split()
+        for name in names:
+            if frm:
+                out.append(name.replace(".", "/") + ".v")
+            elif name.startswith("MV."):
+                out.append(name[3:].replace(".", "/") + ".v")
+    return out
+
+
+def _closure(start_files):
+    seen, todo = [], list(start_files)
     while todo:
         f = todo.pop()
         if f in seen or not (COQ / f).exists():
             continue
         seen.append(f)
-        txt = (COQ / f).read_text()
-        for m in re.finditer(r"From\s+MV\s+Require\s+(?:Import|Export)?\s*([^.]*(?:\.[A-Za-z_][^.\s]*)*)\.", txt):
-            for name in m.group(1).split():
-                todo.append(name.replace(".", "/") + ".v")
-        for m in re.finditer(r"Require\s+(?:Import|Export)\s+((?:MV\.[A-Za-z0-9_.]+\s*)+)\.", txt):
-            for name in m.group(1).split():
-                todo.append(name[3:].replace(".", "/") + ".v")
+        todo.extend(_mv_requires((COQ / f).read_text()))
     return seen
+
+
+def coq_deps(pid):
+    """Transitive MV.* dependencies of Props/<pid>.v (as relative file names, Props file included)."""
+    return _closure([f"Props/{pid}.v"])
 
 
 # ---------------------------------------------------------------- extracted model runner
@@ -218,21 +237,7 @@ def build_runner(pid, timeout=600):
 
 
 def coq_deps_of_file(path: Path):
-    seen, todo = [], []
-    txt = path.read_text()
-    for m in re.finditer(r"From\s+MV\s+Require\s+(?:Import|Export)?\s*([^.]*(?:\.[A-Za-z_][^.\s]*)*)\.", txt):
-        for name in m.group(1).split():
-            todo.append(name.replace(".", "/") + ".v")
-    while todo:
-        f = todo.pop()
-        if f in seen or not (COQ / f).exists():
-            continue
-        seen.append(f)
-        t = (COQ / f).read_text()
-        for m in re.finditer(r"From\s+MV\s+Require\s+(?:Import|Export)?\s*([^.]*(?:\.[A-Za-z_][^.\s]*)*)\.", t):
-            for name in m.group(1).split():
-                todo.append(name.replace(".", "/") + ".v")
-    return seen
+    return _closure(_mv_requires(path.read_text()))
 
 
 def model_run(pid, lines, timeout=1200):
